@@ -487,10 +487,10 @@ func (vc *VC) knownGlobal(base string) (Sym, bool) {
 	switch base {
 	case "G:LNil":
 		return sv{"LNilV"}, true
-	case "G:LTrue":
-		return sv{"(LBoolV true)"}, true
+	case "G:LTrue": // var LTrue = LBool(true): a Go bool
+		return sv{"true"}, true
 	case "G:LFalse":
-		return sv{"(LBoolV false)"}, true
+		return sv{"false"}, true
 	}
 	return nil, false
 }
